@@ -6,7 +6,9 @@ package c11
 
 import (
 	"bytes"
+	"encoding/hex"
 	"fmt"
+	"strconv"
 	"math/big"
 	"strings"
 	"testing"
@@ -221,12 +223,41 @@ func (u *refState) Reopen(root word, disk bool) error {
 
 // acctDump is everything observable about one address through the getters.
 func acctDump(s sdb, a addr) string {
-	var b strings.Builder
-	fmt.Fprintf(&b, "exist=%v empty=%v bal=%s nonce=%d code=%x codehash=%x size=%d suicided=%v", s.Exist(a), s.Empty(a), s.Balance(a), s.Nonce(a), s.Code(a), s.CodeHash(a), s.CodeSize(a), s.Suicided(a))
-	for i, k := range stKeys {
-		fmt.Fprintf(&b, " s%d=%x c%d=%x", i, trimWord(s.State(a, k)), i, trimWord(s.Committed(a, k)))
+	if !s.Exist(a) {
+		// every getter of an absent account takes the same "no object" branch; Empty is the
+		// only one with a non-zero answer
+		if !s.Empty(a) {
+			return "absent but not empty"
+		}
+		return "absent"
 	}
-	return b.String()
+	b := make([]byte, 0, 256)
+	b = append(b, "exist empty="...)
+	b = strconv.AppendBool(b, s.Empty(a))
+	b = append(b, " bal="...)
+	b = s.Balance(a).Append(b, 10)
+	b = append(b, " nonce="...)
+	b = strconv.AppendUint(b, s.Nonce(a), 10)
+	b = append(b, " code="...)
+	b = hex.AppendEncode(b, s.Code(a))
+	ch := s.CodeHash(a)
+	b = append(b, " codehash="...)
+	b = hex.AppendEncode(b, ch[:])
+	b = append(b, " size="...)
+	b = strconv.AppendInt(b, int64(s.CodeSize(a)), 10)
+	b = append(b, " suicided="...)
+	b = strconv.AppendBool(b, s.Suicided(a))
+	for i, k := range stKeys {
+		b = append(b, " s"...)
+		b = strconv.AppendInt(b, int64(i), 10)
+		b = append(b, '=')
+		b = hex.AppendEncode(b, trimWord(s.State(a, k)))
+		b = append(b, " c"...)
+		b = strconv.AppendInt(b, int64(i), 10)
+		b = append(b, '=')
+		b = hex.AppendEncode(b, trimWord(s.Committed(a, k)))
+	}
+	return string(b)
 }
 
 func trimWord(w word) []byte { return bytes.TrimLeft(w[:], "\x00") }
@@ -294,7 +325,7 @@ func genStateCase(t *rapid.T) StateCase {
 		"setnonce", "setnonce", "setnonce", "setcode", "setcode", "setcode", "create", "create", "create",
 		"suicide", "suicide", "suicide", "refund", "log",
 		"snapshot", "snapshot", "snapshot", "snapshot", "snapshot", "snapshot", "revert", "revert", "revert", "revert", "revert",
-		"iroot", "iroot", "iroot", "commit", "commit", "reopen", "reopen",
+		"iroot", "iroot", "commit", "reopen", "reopen",
 	}
 	var c StateCase
 	n := rapid.IntRange(1, 50).Draw(t, "nOps")
@@ -347,14 +378,19 @@ type stRun struct {
 	x     *h.Ctx
 	u, r  sdb
 	snaps []snap
+	cur   []string // dump of the state under test after the previous operation
 	muts  []mut // the journaled operations of the current transaction that were not reverted
 	stats struct{ reverts, richReverts, nested, reopenDisk, reopenCache, suicides, resets, rootChecks, deletedEmpty int }
 }
 
 // compare checks that the implementation under test and the reference agree on every getter.
 func (r *stRun) compare(where string) bool {
-	du, dr := fullDump(r.u), fullDump(r.r)
-	if d := diffDump(du, dr); d != "" {
+	r.cur = fullDump(r.u)
+	return r.compareRef(where)
+}
+
+func (r *stRun) compareRef(where string) bool {
+	if d := diffDump(r.cur, fullDump(r.r)); d != "" {
 		return r.x.Fail("statedb-differs-from-reference", "%s: getters differ from reference go-ethereum StateDB fed the same operations: %s", where, d)
 	}
 	return false
@@ -459,6 +495,7 @@ func (r *stRun) reopen(root word, disk bool, where string) bool {
 func runStateCase(c StateCase, x *h.Ctx) {
 	r := &stRun{x: x, u: newUT(), r: newRef()}
 	u := r.u
+	r.cur = fullDump(u)
 	// deleteEmptyObjects is a per-block constant for every real caller (Finalise/IntermediateRoot
 	// after each transaction and Commit at the end of the block get the same chain-config flag):
 	// an IntermediateRoot uses the flag of the Commit that ends its commit period.
@@ -479,7 +516,7 @@ func runStateCase(c StateCase, x *h.Ctx) {
 		switch op.Op {
 		case "create", "addbal", "subbal", "setbal", "setnonce", "setcode", "setstate", "suicide":
 			single = true
-			before = fullDump(u)
+			before = r.cur
 		}
 		oldBal := new(big.Int).Set(u.Balance(a))
 		existed := u.Exist(a)
@@ -584,7 +621,7 @@ func runStateCase(c StateCase, x *h.Ctx) {
 			u.AddLog(a)
 			r.r.AddLog(a)
 		case "snapshot":
-			r.snaps = append(r.snaps, snap{idU: u.Snapshot(), idR: r.r.Snapshot(), dump: fullDump(u), refund: u.Refund(), logs: u.LogCount(), at: len(r.muts)})
+			r.snaps = append(r.snaps, snap{idU: u.Snapshot(), idR: r.r.Snapshot(), dump: r.cur, refund: u.Refund(), logs: u.LogCount(), at: len(r.muts)})
 			if len(r.snaps) >= 2 {
 				r.stats.nested++
 			}
@@ -598,6 +635,7 @@ func runStateCase(c StateCase, x *h.Ctx) {
 			u.Revert(s.idU)
 			r.r.Revert(s.idR)
 			now := fullDump(u)
+			r.cur = now
 			kinds := map[string]bool{}
 			var undone []string
 			for _, m := range r.muts[s.at:] {
@@ -618,7 +656,7 @@ func runStateCase(c StateCase, x *h.Ctx) {
 			if len(kinds) >= 2 {
 				r.stats.richReverts++
 			}
-			if r.compare(where) {
+			if r.compareRef(where) {
 				return
 			}
 			continue
@@ -652,7 +690,13 @@ func runStateCase(c StateCase, x *h.Ctx) {
 			r.muts = append(r.muts, mut{kind: op.Op, a: a, dirty: dirty && single, reset: reset})
 		}
 		if single {
+			// the operation may change address a only, and there it agrees with the reference
 			after := fullDump(u)
+			r.cur = after
+			if du, dr := after[op.A%len(stAddrs)], acctDump(r.r, a); du != dr {
+				x.Fail("statedb-differs-from-reference", "%s: getters of %x differ from reference go-ethereum StateDB fed the same operations: {%s} vs {%s}", where, a[:2], du, dr)
+				return
+			}
 			for i := range stAddrs {
 				if stAddrs[i] != a && before[i] != after[i] {
 					x.Fail("statedb-operation-changes-other-account", "%s on %x changed address #%d: {%s} -> {%s}", where, a[:2], i, before[i], after[i])
@@ -660,7 +704,7 @@ func runStateCase(c StateCase, x *h.Ctx) {
 				}
 			}
 		}
-		if r.compare(where) {
+		if !single && r.compare(where) {
 			return
 		}
 	}
